@@ -120,6 +120,17 @@ def value_class(op):
 
 
 def lib_store(st, be, op, r=None):
+    """(ok, result) of the store.  Argument objects (ExternalAddress, Address ...) are built on the way: an implementation that
+    refuses an unstorable value in the argument's constructor rather than in the store has refused the store all the same."""
+    try:
+        return _lib_store(st, be, op, r)
+    except AssertionError:
+        raise
+    except Exception as e:   # raised while the argument was being constructed
+        return False, e
+
+
+def _lib_store(st, be, op, r=None):
     b = be['lib']
     t = op['t']
     if r is None:
